@@ -1,5 +1,6 @@
 import MxModel.Struct.Namespace
 import MxModel.Generated.Tables
+import MxModel.Proofs.StructMechCor
 /-!
 # C12 – the visible namespace equals the containers, with the documented precedence
 
@@ -8,9 +9,13 @@ from modelx/core/space.py on every run (`Generated.namespaceOrder` = the `map_id
 namespace `ImplChainMap`; `userRefsOrder` / `dynRefsOrder` = the maps of `refs` in
 `UserSpaceImpl._init_refs` / `DynamicSpaceImpl._init_refs`), so the precedence theorems
 below are re-checked against what the code says now.
-Name *uniqueness* across the containers after every edit is decided by the
-implementation-only oracle of the check (and two defects found by it were repaired); it is
-not a Lean theorem.
+Name *uniqueness* across the containers after every edit is decided for the implementation by
+the oracle of the check; for the mechanism model (`Struct/Mech.lean`, tied to the code edit by edit)
+it is a theorem: `reachable_names_unique` and `reachable_containers_disjoint` hold in every
+reachable state (part `Disj` of the invariant `SM.Inv`).  What is *not* an invariant – and not
+claimed by the property – is disjointness of model-level references and the members of a space:
+`model.x = v` makes no check against members (`global_may_shadow_member`); a space-level name
+takes precedence (`space_level_shadows_model_level`).
 -/
 namespace MxModel.C12
 open MxModel.Struct MxModel.Generated
@@ -99,5 +104,94 @@ example : chainFind [("cells", [("f", 1)]), ("refs", [("f", 2), ("y", 3)]), ("sp
     = some ("cells", 1) := by decide
 example : chainFind [("cells", [("f", 1)]), ("refs", [("f", 2), ("y", 3)]), ("spaces", [("X", 4)])] "y"
     = some ("refs", 3) := by decide
+
+/-! ## The mechanism: names are unique per space in every reachable state -/
+
+section mechanism
+open MxModel.SM
+
+/-- **Member names are unique within a container**: in every reachable state no space has two
+cells, or two references, of one name; and no two spaces have the same id. -/
+theorem reachable_names_unique (kw : List String) (ops : List Op) :
+    (St.run kw {} ops).ids.Nodup ∧
+    ∀ s ∈ (St.run kw {} ops).spaces, (s.cells.map (·.1)).Nodup ∧ (s.refs.map (·.1)).Nodup := by
+  have hinv := run_inv kw ops
+  generalize St.run kw {} ops = st at hinv
+  refine ⟨hinv.wf.nodup, ?_⟩
+  intro s hs
+  have hf := find_of_mem st hinv.wf.nodup s hs
+  have h1 := hinv.wf.keys .cells s.id
+  have h2 := hinv.wf.keys .refs s.id
+  unfold St.cont at h1 h2
+  rw [hf] at h1 h2
+  exact ⟨h1, h2⟩
+
+/-- **In every space a name denotes at most one thing among its cells, its own references and
+its child spaces; the same holds for the spaces and references of the model** – in every state
+reachable by any sequence of operations, including member creation in a base of a space that uses
+the name for another kind (`newCells`, `setRef`, `renameCells` check every sub space) and
+`addBases` / `newSpace` with bases whose members clash (`noConflict`). -/
+theorem reachable_containers_disjoint (kw : List String) (ops : List Op) (q : Path) (n : String) :
+    ¬ (((St.run kw {} ops).mem .cells q n).isSome = true ∧ ((St.run kw {} ops).mem .refs q n).isSome = true) ∧
+    (n ∈ (St.run kw {} ops).childNames q →
+      (St.run kw {} ops).mem .cells q n = none ∧ (St.run kw {} ops).mem .refs q n = none) ∧
+    (n ∈ (St.run kw {} ops).globals → n ∉ (St.run kw {} ops).childNames []) := by
+  have hd := (run_inv kw ops).disj
+  refine ⟨?_, hd.child q n, hd.glob n⟩
+  rintro ⟨h1, h2⟩
+  rw [hd.cr q n h1] at h2
+  cases h2
+
+/-- `kindOf` (what a name is in the namespace of a space) is therefore well defined: it does not
+depend on the order in which the containers are searched -/
+theorem kind_well_defined (kw : List String) (ops : List Op) (q : Path) (n : String) :
+    ((St.run kw {} ops).kindOf q n = some .cells ↔ ((St.run kw {} ops).mem .cells q n).isSome = true) ∧
+    ((St.run kw {} ops).kindOf q n = some .space ↔ n ∈ (St.run kw {} ops).childNames q) := by
+  have hd := (run_inv kw ops).disj
+  generalize St.run kw {} ops = st at hd
+  unfold St.kindOf
+  constructor
+  · constructor
+    · intro h
+      split at h
+      · assumption
+      · split at h
+        · cases h
+        · split at h <;> cases h
+    · intro h; simp [h]
+  · constructor
+    · intro h
+      split at h
+      · cases h
+      · split at h
+        · rename_i hc; simpa using hc
+        · split at h <;> cases h
+    · intro h
+      have := (hd.child q n h).1
+      simp [this, h]
+
+/-- what is *not* an invariant (and not claimed): a model-level reference may bear the name of a
+member of a space – `ModelImpl.set_attr` checks top-level spaces only; the space-level name wins -/
+theorem global_may_shadow_member :
+    let st := St.run [] {} [.newSpace [] "A" [], .newCells ["A"] "x" 1, .setGlobal "x"]
+    "x" ∈ st.globals ∧ (st.mem .cells ["A"] "x").isSome = true ∧ st.kindOf ["A"] "x" = some .cells := by
+  decide
+
+/-! Non-vacuity: requests for a second kind of thing of one name are refused – in the space itself,
+from a base (a cells `x` in a base of a space with reference `x`), through `addBases`, and the
+case repaired by 8550727 (a reference named like a child space, with a model-level reference). -/
+def clashOps : List Op := [
+  .newSpace [] "A" [], .newSpace [] "B" [["A"]], .setRef ["B"] "x" 1, .newSpace ["A"] "y" [],
+  .newSpace [] "C" [], .newCells ["C"] "x" 2, .setGlobal "y"]
+
+example : ((St.run [] {} clashOps).step [] (.newCells ["B"] "x" 3)).2 = false := by decide
+example : ((St.run [] {} clashOps).step [] (.newCells ["A"] "x" 3)).2 = false := by decide
+example : ((St.run [] {} clashOps).step [] (.addBases ["B"] [["C"]])).2 = false := by decide
+example : ((St.run [] {} clashOps).step [] (.setRef ["A"] "y" 3)).2 = false := by decide
+example : ((St.run [] {} clashOps).step [] (.newCells ["A"] "z" 3)).2 = true := by decide
+example : (St.run [] {} (clashOps ++ [.newCells ["A"] "z" 3])).mem .cells ["B"] "z"
+    = some { derived := true, payload := 3 } := by decide
+
+end mechanism
 
 end MxModel.C12
